@@ -536,6 +536,9 @@ func genAuth(repo, out string) error {
 						if br, ok := bs.(*ast.BranchStmt); ok && br.Tok == token.BREAK {
 							firstMatch = true
 						}
+						if _, ok := bs.(*ast.ReturnStmt); ok {
+							firstMatch = true
+						}
 					}
 				}
 			}
@@ -564,6 +567,44 @@ func genAuth(repo, out string) error {
 		}
 	}
 	fmt.Fprintf(&b, "/-- `handleSession` calls `onJoin` before it starts the message handler -/\ndef joinBeforeHandler : Bool := %v\n\n", joinIdx >= 0 && goIdx > joinIdx)
+	// Who sends WELCOME: AttachClient after handleSession (blocking), or the handler goroutine as
+	// its first action (non-blocking select with default).
+	welcomeBy := ""
+	for _, o := range order {
+		if o == "sendWelcome" {
+			welcomeBy = "AttachClient"
+		}
+	}
+	handlerFirst := false
+	if goIdx >= 0 {
+		if gs, ok := handleSession.Body.List[goIdx].(*ast.GoStmt); ok {
+			if fl, ok := gs.Call.Fun.(*ast.FuncLit); ok && len(fl.Body.List) > 0 {
+				if sel, ok := fl.Body.List[0].(*ast.SelectStmt); ok {
+					hasDefault, sendsWelcome := false, false
+					for _, c := range sel.Body.List {
+						cc := c.(*ast.CommClause)
+						if cc.Comm == nil {
+							hasDefault = true
+						} else if ss, ok := cc.Comm.(*ast.SendStmt); ok && c09Src(fsetM, ss.Value) == "welcome" {
+							sendsWelcome = true
+						}
+					}
+					handlerFirst = hasDefault && sendsWelcome
+				}
+			}
+		}
+	}
+	if handlerFirst {
+		if welcomeBy != "" {
+			return fmt.Errorf("WELCOME is sent both by AttachClient and by the session handler")
+		}
+		welcomeBy = "handler"
+	}
+	if welcomeBy == "" {
+		return fmt.Errorf("cannot find where WELCOME is sent (neither `client.Send() <- welcome` in AttachClient nor a non-blocking send as the handler's first action)")
+	}
+	fmt.Fprintf(&b, "/-- who sends WELCOME: \"AttachClient\" (blocking send after handleSession) or \"handler\" (the\n    session's message handler, as its first action, without blocking: dropped when the client's queue is full) -/\ndef welcomeSentBy : String := %s\n\n", leanStr(welcomeBy))
+	fmt.Fprintf(&b, "def welcomeSendNonBlocking : Bool := %v\n\n", welcomeBy == "handler")
 	var std []string
 	ast.Inspect(clean.Body, func(x ast.Node) bool {
 		as, ok := x.(*ast.AssignStmt)
